@@ -3,3 +3,8 @@ BUILT["C18"] = (
  "TLC enumerates every (n_states, max_batch_size, devices) point of a bounded box on the TLA+ model of the documented layout and checks the property's predicates as invariants; every point is also executed on the real BatchProcessor (attributes, prepare_batches on numbered states, unbatch_results with trailing shapes (), (2,), (2,3)) and TLC judges each observation with the same predicates. Right level: the property is a for-all over a finite integer box; exhaustive inside the box, nothing outside.",
  "Trusted: TLC; the 60-line projection in harness/workers/batching_worker.py; device counts passed explicitly except for the emulated-device cases. Bounds: quick n<=10 full + 16 selected n up to 257; thorough n<=40 full + ~60 selected n up to 700.",
  "DESIGN.md 3/C18")
+BUILT["C19"] = (
+ "TLC exhaustive model of the documented range space (all boxes in a bounded range) + TLC trace validation of the real create_range_space on every box and every vector of the enlarged box",
+ "TLC enumerates all boxes (dimension 1-2 bounds -2..3; dimension 3 bounds -1..2) on the TLA+ definition of row-major enumeration and clipped indexing with the inverse/no-duplicate/nearest-row invariants; the real create_range_space is executed on every box (plus sampled dimension-4 boxes), its space rows and its index function on every vector inside and one unit outside are judged by TLC with the same predicates.",
+ "Trusted: TLC; harness/workers/rangespace_worker.py (vmapped index_fn). Bounds as stated; larger bounds/dimensions unverified.",
+ "DESIGN.md 3/C19")
